@@ -73,7 +73,7 @@ CHECKS.update({
         text="On every observed execution of the generated thread trees: each closure ran once, join returned the closure's value after the closure and all of the thread's thread-local destructors, scopes outlived their threads, each (thread,key) had one instance destroyed exactly once in initialisation order, access during/after destruction failed, ids and names were right.",
         ref="DESIGN.md §4 C07", note="std::thread::scope does not wait for thread-local destructors either; that part is not demanded"),
     "C12": dict(
-        technique="runtime monitoring in fresh child processes: a history of differently configured Shuttle runs followed by a failing run; the parent checks the caught payload, parses the run's stderr segment and the persistence directory, and replays the emitted schedule in another fresh process; sanitizers: failing executions (panics with live guards/thread-locals, deadlocks, step bounds) under valgrind memcheck (quick) and AddressSanitizer (thorough)",
+        technique="runtime monitoring in fresh child processes: a history of differently configured Shuttle runs followed by a failing run; the parent checks the caught payload, parses the run's stderr segment and the persistence directory, and replays the emitted schedule in another fresh process (every emitted schedule, not only the last); portfolio runs with deterministic failing/passing members in every order; sanitizers: failing executions (panics with live guards/thread-locals, deadlocks, step bounds) under valgrind memcheck (quick) and AddressSanitizer (thorough)",
         text="For every (history, mode, scenario) case run: the failure surfaced with the task's own payload / the naming message, a schedule was emitted exactly in the configured way (or not at all when disabled) whatever ran before, replaying it reproduced the failure; portfolios failed iff a member did.",
         ref="DESIGN.md §4 C12", note="target runs that do not hit their failure within 400 random iterations are counted, not judged"),
     "C14": dict(
@@ -85,12 +85,12 @@ CHECKS.update({
         text="On every observed execution of the generated async programs: no task was left un-polled after a wake at/after its last poll, none was polled repeatedly without a wake, JoinHandles yielded the task's own output after completion or Cancelled only after an abort with the future already dropped, aborted tasks took no further steps, detached tasks were not destroyed early, all-pending programs were reported as deadlocks.",
         ref="DESIGN.md §4 C17", note="one stale re-poll per wake (the executor's `woken` flag) is tolerated"),
     "C18": dict(
-        technique="runtime monitoring: scripted, hand-polled Acquire futures on a strictly fair BatchSemaphore with every step validated against a FIFO counting model and against the semaphore's internal queue/flags (verif hook); blocking programs in both fairness modes against the reference model; exhaustively enumerated cancellation/move scenarios; sanitizers: the same async slice under valgrind memcheck (quick) and AddressSanitizer (thorough)",
+        technique="runtime monitoring: scripted, hand-polled Acquire futures on a strictly fair BatchSemaphore with every step validated against a FIFO counting model and against the semaphore's internal queue/flags (verif hook); blocking programs in both fairness modes against the reference model; exhaustively enumerated cancellation/move scenarios; structured scripts that queue 3-5 waiters, cancel every position and release permit by permit; sanitizers: the same async slice under valgrind memcheck (quick) and AddressSanitizer (thorough)",
         text="Every scripted step agreed with the model in result, wake-ups, available permits and internal queue; blocking programs in both fairness modes produced only allowed outcomes; the cancellation, moved-future and close scenarios passed on every schedule.",
         ref="DESIGN.md §4 C18", note="trusted: hook H2 (read-only snapshot); manually polled Acquires on an unfair semaphore are not driven (unsupported use)"),
     "C19": dict(
         engine="vtokio",
-        technique="runtime monitoring: differential scripts of hand-polled operations against real tokio (no runtime) vs the replacement inside a Shuttle execution; scheduled scenario programs with built-in invariant checks explored exhaustively and by random/PCT sampling",
+        technique="runtime monitoring: differential scripts of hand-polled operations against real tokio (no runtime) vs the replacement inside a Shuttle execution; scheduled scenario programs with built-in invariant checks explored exhaustively and by random/PCT sampling (incl. close-then-drain with try_recv, cancellation during notify_waiters, zero-permit semaphore requests, tokio RwLock in the differential)",
         text="All scripts agreed step by step with real tokio on the compared results; every scenario (correct tokio program with exactly-once/FIFO/capacity/Notify/lock/JoinSet invariants) passed on every schedule explored, apart from the listed known finding.",
         ref="DESIGN.md §4 C19", note="real tokio from the offline registry is the reference; wake-ups and a few documented corner divergences (capacity of a closed channel, available_permits with a queued request, queued senders/acquirers at close, choice among several Notify waiters) are not compared"),
     "C20": dict(
